@@ -840,6 +840,33 @@ func modeTotal(seed uint64, n int, out *sx.Out) {
 		}
 		out.Case(fmt.Sprintf("TBuild %d %s %s", nf, oc, bs), map[string]interface{}{"case": i, "filters": nf, "syscalls": sr.Syscalls, "outcome": oc, "detail": detail}, "build/"+oc, oc != "OPanic")
 	}
+	// around the 64-field limit: valid value filters, inter-field comparisons and keys in every mix, so that each way of adding
+	// the field that no longer fits (a -F filter, a -C comparison, the keys) is the one that crosses the limit
+	for total := 62; total <= 67; total++ {
+		for tail := 0; tail < 8; tail++ { // which of the last three fields are comparisons
+			for nkeys := 0; nkeys <= 1; nkeys++ {
+				sr := &rule.SyscallRule{Type: rule.AppendSyscallRuleType, List: "exit", Action: "always", Syscalls: []string{"1"}}
+				for k := 0; k < total; k++ {
+					fromEnd := total - 1 - k
+					if fromEnd < 3 && tail&(1<<uint(fromEnd)) != 0 {
+						sr.Filters = append(sr.Filters, rule.FilterSpec{Type: rule.InterFieldFilterType, LHS: "uid", Comparator: "!=", RHS: "euid"})
+					} else {
+						sr.Filters = append(sr.Filters, rule.FilterSpec{Type: rule.ValueFilterType, LHS: "pid", Comparator: "!=", RHS: strconv.Itoa(k + 1)})
+					}
+				}
+				if nkeys == 1 {
+					sr.Keys = []string{"k"}
+				}
+				var built []byte
+				oc, detail := guarded(func() (string, error) { b, err := rule.Build(sr); built = b; return "", err })
+				bs := "None"
+				if oc == "OOk" {
+					bs = "(Some " + sx.Hx(built) + ")"
+				}
+				out.Case(fmt.Sprintf("TBuild %d %s %s", total, oc, bs), map[string]interface{}{"filters": total, "comparisons_in_tail": tail, "keys": nkeys, "outcome": oc, "detail": detail}, "field-limit/"+oc, oc != "OPanic")
+			}
+		}
+	}
 	// every field with every hostile right-hand side, one filter per rule, built directly (flags.Parse would refuse some of these
 	// before Build sees them): each value parser on its own
 	allFields := append(append(append(append([]string{"arch", "perm", "filetype", "exit", "msgtype", "sessionid", "key", "field_compare", "nosuchfield", ""}, numFields...), uidFields...), gidFields...), strFields...)
